@@ -27,10 +27,12 @@ const FILE_NAMES: &[&str] = &[
     "a.typ", "b.typ", "main.typ", "c.typ", "lib.typ", "a.b.typ", "sp ace.typ", "\u{fc}n\u{ef}.typ",
     "-x.typ", "c.TYP", "d.typst", "e.ttyp", "f.typ.bak", "typ", "noext", "g.txt", "README.md",
     ".h.typ", ".typ", "atyp", "x.typ~", "UPPER.Typ", "z.typ",
+    // names that are not valid UTF-8 (U+F7xx stands for the raw byte 0xxx, see util::path_encode)
+    "r\u{f7e9}sum\u{f7e9}.typ", ".h\u{f7ff}.typ", "n\u{f7c3}.typ",
 ];
 const TYP_NAMES: &[&str] = &["a.typ", "b.typ", "main.typ", "c.typ", "lib.typ", "a.b.typ", "z.typ", "sp ace.typ"];
 const DIR_NAMES: &[&str] = &[
-    "sub", "chapters", "nested", "a b", ".git", ".cache", "x.typ", "\u{fc}d", "d1", "d2", ".hidden", "typ",
+    "sub", "chapters", "nested", "a b", ".git", ".cache", "x.typ", "\u{fc}d", "d1", "d2", ".hidden", "typ", "d\u{f7fe}", ".\u{f7ff}x",
 ];
 const TOP_NAMES: &[&str] = &["proj", ".proj", "my proj", "src", "p.typ", "..proj", "docs"];
 
@@ -102,13 +104,18 @@ impl<'a> Docs<'a> {
 
     /// contents of one file / stdin, by class
     pub fn content(&mut self) -> Bytes {
-        let w = [22u32, 34, 9, 3, 3, 5, 4, 4, 3, 4, 5, 4, 5];
+        let w = [22u32, 34, 9, 3, 3, 5, 4, 4, 3, 4, 5, 4, 5, 3, 3];
         match self.rng.weighted(&w) {
             0 => self.formatted(self.main_cfg).into(),
             1 => self.fresh_doc(0.7).into(),
             2 => {
                 let d = self.fresh_doc(0.5);
-                gen::erroneous_variant(&d, &mut self.rng).into()
+                let e = gen::erroneous_variant(&d, &mut self.rng);
+                if self.rng.chance(0.3) {
+                    gen::drop_final_newline(&e).into()
+                } else {
+                    e.into()
+                }
             }
             3 => Bytes(Vec::new()),
             4 => Bytes(self.rng.pick(&["\n", " ", "\n\n\n", "  \n  \n", "\t\n", "\r\n"]).as_bytes().to_vec()),
@@ -170,6 +177,21 @@ impl<'a> Docs<'a> {
                     Fmt::Ok(f) => f.into(),
                     _ => s.into(),
                 }
+            }
+            13 => {
+                // byte-order mark, control characters: the front-end must hand the text over as is
+                let d = if self.rng.chance(0.5) { self.formatted(self.main_cfg) } else { self.fresh_doc(0.5) };
+                match self.rng.below(3) {
+                    0 => format!("\u{feff}{}", d).into(),
+                    1 => format!("{}// nul \u{0} bell \u{7} esc \u{1b}[31m\n", d).into(),
+                    _ => format!("{}#let s = \"tab\there \u{b} ff \u{c}\"\n", d).into(),
+                }
+            }
+            14 => {
+                // erroneous input surrounded by blanks: must be echoed byte for byte
+                let d = self.fresh_doc(0.5);
+                let e = gen::erroneous_variant(&d, &mut self.rng);
+                format!("{}{}{}", self.rng.pick(&["", "\n\n", "  ", "\t\n"]), e, self.rng.pick(&["", "\n\n\n", "   ", " \n \n", "\r\n"])).into()
             }
             _ => {
                 // (class 11) unformatted but tiny
@@ -279,7 +301,13 @@ pub fn gen_tree(rng: &mut Rng, docs: &mut Docs) -> Tree {
         // pick or create a directory
         let dirs: Vec<String> = dirs_of(&tree).into_iter().filter(|d| d == &base || is_below(d, &base) || base == ".").collect();
         let mut dir = rng.pick(&dirs).clone();
-        if rng.chance(0.35) && dir.matches('/').count() < 4 {
+        if rng.chance(0.04) {
+            // a long chain of directories (a walk with a depth limit would stop short)
+            for k in 0..rng.range(6, 14) {
+                dir = join(&dir, &format!("l{}", k));
+                tree.insert(dir.clone(), Node::Dir);
+            }
+        } else if rng.chance(0.35) && dir.matches('/').count() < 4 {
             let mut name = rng.pick(DIR_NAMES).to_string();
             if !hidden && name.starts_with('.') {
                 name = "sub".into();
@@ -312,6 +340,32 @@ pub fn gen_tree(rng: &mut Rng, docs: &mut Docs) -> Tree {
         let key = join(&dir, &name);
         if tree.contains_key(&key) {
             continue;
+        }
+        // a neighbour whose name looks like a temporary / backup of an existing .typ file: an
+        // implementation that writes through such a name must not clobber it
+        if rng.chance(0.08) {
+            let typs: Vec<String> = files_of(&tree).into_iter().filter(|k| k.ends_with(".typ")).collect();
+            if !typs.is_empty() {
+                let base = rng.pick(&typs).clone();
+                let (d, n) = (parent(&base).to_string(), file_name(&base).to_string());
+                let stem = n.trim_end_matches(".typ");
+                let cand = match rng.below(9) {
+                    0 => format!("{}.tmp", n),
+                    1 => format!("{}.bak", n),
+                    2 => format!("{}~", n),
+                    3 => format!("{}.new", n),
+                    4 => format!("{}.orig", n),
+                    5 => format!("{}.tmp", stem),
+                    6 => format!(".{}.tmp", n),
+                    7 => format!(".{}.swp", n),
+                    _ => format!("{}.tmp.typ", stem),
+                };
+                let k2 = join(&d, &cand);
+                if !tree.contains_key(&k2) {
+                    tree.insert(k2, Node::File(docs.content()));
+                }
+                continue;
+            }
         }
         if symlinks && rng.chance(0.2) {
             let files = files_of(&tree);
@@ -399,7 +453,7 @@ pub fn gen_inv(rng: &mut Rng, tree: &Tree, docs: &mut Docs, focus: Focus, main_s
                 let d = rng.pick(&dirs).clone();
                 Some(spell(rng, &cwd, &d, true))
             };
-            Shape::FormatAll { check, dir }
+            Shape::FormatAll { check, dir, inplace: rng.chance(0.12) }
         }
         _ => Shape::Files { mode: Mode::InplaceCheck, paths: gen_paths(rng, tree, &cwd, Mode::Check) },
     };
@@ -423,7 +477,34 @@ pub fn gen_inv(rng: &mut Rng, tree: &Tree, docs: &mut Docs, focus: Focus, main_s
         plan: Vec::new(),
         shim_seed: rng.next_u64() >> 1,
         readdir: rng.pick(&["perm", "perm", "perm", "sorted", "reverse", "native"]).to_string(),
+        env: gen_env(rng),
     }
+}
+
+/// a few environment variables a front-end might be tempted to look at
+fn gen_env(rng: &mut Rng) -> Vec<(String, String)> {
+    let mut v = Vec::new();
+    if rng.chance(0.3) {
+        let names = [
+            "COLUMNS", "LINES", "TERM", "NO_COLOR", "CLICOLOR_FORCE", "LANG", "LC_ALL", "TYPSTYLE_COLUMN", "TYPSTYLE_TAB_WIDTH",
+            "TYPSTYLE_COLUMNS", "TYPSTYLE_CHECK", "TYPSTYLE_INPLACE", "TYPSTYLE_LOG", "RUST_LOG", "TAB_WIDTH", "COLUMN", "HOME", "TMPDIR", "CI",
+        ];
+        for _ in 0..rng.range(1, 4) {
+            let n = *rng.pick(&names);
+            let val = match n {
+                "TERM" => "dumb".to_string(),
+                "LANG" | "LC_ALL" => rng.pick(&["C", "tr_TR.UTF-8", "de_DE.ISO-8859-1"]).to_string(),
+                "HOME" | "TMPDIR" => "/nonexistent".to_string(),
+                "RUST_LOG" | "TYPSTYLE_LOG" => "trace".to_string(),
+                "NO_COLOR" | "CLICOLOR_FORCE" | "CI" | "TYPSTYLE_CHECK" | "TYPSTYLE_INPLACE" => rng.pick(&["1", "true", "0"]).to_string(),
+                _ => rng.pick(&["0", "1", "7", "13", "40", "100", "200"]).to_string(),
+            };
+            if !v.iter().any(|(k, _): &(String, String)| k == n) {
+                v.push((n.to_string(), val));
+            }
+        }
+    }
+    v
 }
 
 pub fn gen_edit(rng: &mut Rng, tree: &Tree, docs: &mut Docs) -> Option<Edit> {
@@ -492,7 +573,7 @@ pub fn gen_case(seed: u64, profile: &str, params: &GenParams, oracle: &mut Oracl
                         },
                         paths: if *mode == Mode::Check || *mode == Mode::Inplace { paths.clone() } else { gen_paths(&mut rng, &t, &q.cwd, *mode) },
                     },
-                    (Shape::FormatAll { check, dir }, _) => Shape::FormatAll { check: if pattern < 3 { !*check } else { *check }, dir: dir.clone() },
+                    (Shape::FormatAll { check, dir, inplace }, _) => Shape::FormatAll { check: if pattern < 3 { !*check } else { *check }, dir: dir.clone(), inplace: *inplace },
                     (s, _) => s.clone(),
                 };
                 // an -i list must not name symlinks (DESIGN 4.3)
